@@ -42,7 +42,8 @@ CONSTANTS ActSets,     \* function: name -> set of [a |-> action, b |-> bucket o
 VARIABLES hist
 vars == <<hist>>
 
-Buckets == {"b1", "b2", "b3"}
+(* b1x: a bucket whose name has b1 as a proper prefix - a bucket-limited action for b1 says nothing about it *)
+Buckets == {"b1", "b1x", "b2", "b3"}
 AllActs == {"Admin", "Read", "Write", "List", "Tagging"}
 
 Routes == {"HeadObject", "HeadBucket", "CopyObjectPart", "PutObjectPart", "CompleteMultipartUpload",
@@ -70,14 +71,14 @@ Need(rt) ==
     [] rt = "ListBuckets" -> {"ANY"}
     [] OTHER -> {"Write"}
 
-TargetBucket(rt) == IF rt = "PutBucket" THEN "b3" ELSE IF rt = "ListBuckets" THEN "" ELSE "b1"
+TargetBuckets(rt) == IF rt = "PutBucket" THEN {"b3"} ELSE IF rt = "ListBuckets" THEN {""} ELSE {"b1", "b1x"}
 
 CanDo(S, action, bucket) ==
   \/ action = "ANY"
   \/ [a |-> "Admin", b |-> ""] \in S
   \/ [a |-> action, b |-> ""] \in S
   \/ bucket # "" /\ ([a |-> action, b |-> bucket] \in S \/ [a |-> "Admin", b |-> bucket] \in S)
-  \* a trailing-star pattern: "b*" matches every bucket of this universe (b1, b2, b3)
+  \* a trailing-star pattern: "b*" matches every bucket of this universe (b1, b1x, b2, b3)
   \/ bucket # "" /\ ([a |-> action, b |-> "b*"] \in S \/ [a |-> "Admin", b |-> "b*"] \in S)
 Permits(S, rt, bucket) == \E a \in Need(rt) : CanDo(S, a, bucket)
 
@@ -156,11 +157,11 @@ Applicable(rt, st, cr) ==
 Init == hist = <<>>
 GenReq ==
   /\ Len(hist) < MaxOps
-  /\ \E rt \in Routes, st \in Styles, cr \in Creds, ac \in ActNames, an \in AnonNames :
+  /\ \E rt \in Routes, st \in Styles, cr \in Creds, ac \in ActNames, an \in AnonNames : \E bk \in TargetBuckets(rt) :
        /\ Applicable(rt, st, cr)
        /\ st \in Unsigned => ac = "None"
        /\ hist' = Append(hist, [ev |-> "req", route |-> rt, style |-> st, cred |-> cr, acts |-> ac, anon |-> an,
-                                 bucket |-> TargetBucket(rt)])
+                                 bucket |-> bk])
 Spec == Init /\ [][GenReq]_vars
 
 (* design-level properties, checked over every generated request *)
